@@ -93,6 +93,22 @@ def archive_of(term):
     return None
 
 
+def frame_of(b, bi):
+    """outermost inlined frame containing block bi (None: the function's own blocks)"""
+    best = None
+    for f_ in b.raw.get('inlined') or []:
+        if f_['blocks'][0] <= bi < f_['blocks'][1]:
+            if best is None or (f_['blocks'][1] - f_['blocks'][0]) > (best[1] - best[0]):
+                best = tuple(f_['blocks'])
+    return best
+
+
+def arch_for(single, per_frame, b, bi):
+    if single is not None or len(per_frame) <= 1:
+        return single
+    return per_frame.get(frame_of(b, bi))
+
+
 def run(facts, cg):
     T = Terms(facts)
     instances, findings = [], []
@@ -144,12 +160,17 @@ def run(facts, cg):
         b = facts.bodies[bid]
         # the archive whose source index initialises the output
         out_arch = None
+        out_archs = {}          # inlined frame (None = the function itself) -> archive local; two inlined copies of a clone
+                                # function each have their own archive and output
         for bi, t in b.calls():
             if 'q' in t['callee'] and callee_q(t) == NEW_OUT:
                 idx_term = simplify(T.of_operand(b, t['args'][1]))
                 if not has_call(idx_term, 'Archive::build_source_index'):
                     finding('R-WIRE', b.q, 'output-index', 'the clone output is not initialised with the archive source index (%s)' % show(idx_term)[:120])
                 out_arch = accessor_receiver(b, t['args'][1], 'Archive::build_source_index')
+                out_archs[frame_of(b, bi)] = out_arch
+        if len(out_archs) > 1:
+            out_arch = None
         scans = 0
         for bi, t in b.calls():
             d = callee_def(t)
@@ -166,12 +187,12 @@ def run(facts, cg):
                     if not has_call(term, accessor):
                         finding('R-WIRE', b.q, 'scan-%s:%s' % (what.split()[0], facts.bodies[d].q.split('::')[-1]),
                                 '%s scans with a %s that is not the archive\'s own (%s)' % (facts.bodies[d].q, what, show(term)[:120]))
-                    elif out_arch is not None and accessor_receiver(b, t['args'][pi], accessor) != out_arch:
+                    elif arch_for(out_arch, out_archs, b, bi) is not None and accessor_receiver(b, t['args'][pi], accessor) != arch_for(out_arch, out_archs, b, bi):
                         finding('R-WIRE', b.q, 'scan-other-archive:%s' % facts.bodies[d].q.split('::')[-1], '%s uses the %s of a different archive value' % (facts.bodies[d].q, what))
             # chunk_stream(archive, output.chunks())
             for pi_a in sorted(param_sources(facts, T, d, CHUNK_STREAM, 0)):
                 ra = b.base_of(t['args'][pi_a])
-                if out_arch is not None and (ra is None or ra[0] != out_arch):
+                if arch_for(out_arch, out_archs, b, bi) is not None and (ra is None or ra[0] != arch_for(out_arch, out_archs, b, bi)):
                     finding('R-WIRE', b.q, 'fetch-other-archive', 'chunks are fetched from a different archive value than the one that defined the output')
         if scans < 4:
             finding('R-WIRE', b.q, 'floor', 'expected the output scan and the seed scans (config + hash length) to be found, got %d role sites: cannot decide' % scans)
